@@ -3,7 +3,7 @@
 # Confirms in a scratch worktree of /repo HEAD: demo passes without the change, fails with it, suite passes with it.
 SD="$1"; NAME="$2"
 WT=/tmp/w/confirm_wt_$NAME
-TG=/tmp/w/confirm_tgt
+TG=${CONFIRM_TGT:-/tmp/w/confirm_tgt}
 LOG=/tmp/w/confirm_$NAME.log
 exec >"$LOG" 2>&1
 export CARGO_NET_OFFLINE=true CARGO_TARGET_DIR=$TG
